@@ -304,7 +304,11 @@ def violations(rng, good):
             (0, '2 2 a', 'number not at term start'), (0, 'a 2', 'number not at term start'), (0, 'a+b', 'missing blanks'), (0, 'a +b', 'missing blanks'), (0, 'a+ b', 'missing blanks'), (0, 'a -b', 'missing blanks'), (0, 'a + -b', 'negation of a non-leading term'),
             (0, '(a + b', 'unbalanced'), (0, 'a + b)', 'unbalanced'), (0, '(a + b]', 'mismatched brackets'), (0, 'sin(a', 'unbalanced'), (0, 'x_i / y_i', 'denominator not scalar') , (2, '2 a_i / b_i' if False else 'a / x_i', 'denominator not scalar'), (0, 'a^x_i', 'non-scalar exponent'),
             (0, 'A_i', 'wrong number of indices'), (0, 'x_ij', 'wrong number of indices'), (0, 'a_i', 'index on a scalar'), (0, 'x_3', 'numeral out of range'), (0, '', 'empty'), (0, 'a  b' if False else 'a + ', 'dangling operator'), (0, '+ a', 'leading plus'), (0, 'a / ', 'dangling fraction'), (0, 'a ^2', 'blank before power'),
-            (0, 'x_i_j', 'double underscore'), (0, '1x', 'name starts with a digit')]
+            (0, 'x_i_j', 'double underscore'), (0, '1x', 'name starts with a digit'),
+            # an index that is free in the numerator (or base) and summed inside the denominator (or exponent) occurs three times
+            (0, 'x_i / y_i y_i', 'index more than twice across a fraction'), (0, 'x_i / A_ii', 'index more than twice across a fraction'), (0, 'A_ij x_j / y_i y_i', 'index more than twice across a fraction'),
+            (0, 'x_i / (y_i y_i)', 'index more than twice across a fraction'), (0, 'x_i y_j / y_j y_j', 'index more than twice across a fraction'), (0, 'x_i (a / y_i y_i)', 'index more than twice across a fraction'),
+            (0, 'x_i^(y_i y_i)', 'index more than twice across a power'), (0, 'A_ij^(x_i x_i)', 'index more than twice across a power'), (0, 'x_i y_i / x_i x_i', 'index more than twice across a fraction'), (0, 'A_ij / B_kj B_kj' if False else 'A_ij / y_j y_j', 'index more than twice across a fraction')]
     return out
 
 def rejection_case(item):
